@@ -293,6 +293,93 @@ Definition expr_oracle_code (k : expr_case) : N :=
    else if eobs_agree (eval_with (spec_fn true) (env_of_list (ec_env k)) (ec_expr k)) (ec_obs k) then 1
    else 2)%N.
 
+(** * 1d. Direct calls of processAssignments *)
+
+(** What the real evaluator says a clause's expression is worth on the inputs
+    of a step: not evaluated (an input it mentions was not set in this step),
+    a value, an evaluation error. *)
+Inductive pval := PNot | PVal (v : value) | PErr.
+
+Record astep := {
+  st_in : list (var * value);       (* inputs set and activated before the run; the other inputs are de-activated *)
+  st_status : Z;                    (* 0 ran, 1 error, 2 panic *)
+  st_vals : list (var * value);     (* the targets' values afterwards *)
+  st_act : list (var * bool);       (* the targets' activation flags afterwards *)
+  st_produced : list pval;          (* one per clause (flat cases only) *)
+}.
+
+Record assign_case := {
+  as_cfg : acfg;
+  as_inputs : list var;
+  as_clauses : list assignment;
+  as_steps : list astep;
+  as_flat : bool;                   (* every expression mentions inputs only *)
+}.
+
+Definition enter_step (c : acfg) (s : st) (inputs : list var) (present : list (var * value)) : st :=
+  let s0 := {| s_mood := s_mood s; s_mood_start := s_mood_start s; s_vals := s_vals s;
+               s_act := filter (fun x => negb (mem_var x inputs)) (s_act s); s_ms := s_ms s |} in
+  fold_left (fun s '(x, v) => fst (set_var c s x v 0)) present s0.
+
+Fixpoint assign_model_ok (c : acfg) (inputs : list var) (clauses : list assignment) (s : st)
+         (steps : list astep) (i : nat) : bool :=
+  match steps with
+  | [] => true
+  | stp :: tl =>
+      let s1 := enter_step c s inputs (st_in stp) in
+      let '(s2, _, stt) := do_assigns c s1 (inject_Z (Z.of_nat i)) clauses in
+      Z.eqb (status_code stt) (st_status stp)
+      && forallb (fun '(x, v) => value_close (lookup_val x (s_vals s2)) v) (st_vals stp)
+      && forallb (fun '(x, b) => Bool.eqb (mem_var x (s_act s2)) b) (st_act stp)
+      && assign_model_ok c inputs clauses s2 tl (S i)
+  end.
+
+Definition assign_model_bad (k : assign_case) : bool :=
+  negb (assign_model_ok (as_cfg k) (as_inputs k) (as_clauses k) (init_st (as_cfg k)) (as_steps k) 0).
+
+(** The oracle: per clause the accepted non-nil values so far.  A clause is
+    evaluated when its inputs are fresh and no earlier clause of this run
+    failed; nil is skipped; a refused value or an evaluation error stops the
+    run. *)
+Fixpoint assign_oracle_step (cls : list (assignment * list value)) (ps : list pval) (aborted : bool)
+  : list (assignment * list value) * bool :=
+  match cls, ps with
+  | (a, seen) :: ctl, p :: ptl =>
+      if aborted then let '(r, ab) := assign_oracle_step ctl ptl true in ((a, seen) :: r, ab) else
+      match p with
+      | PNot => let '(r, ab) := assign_oracle_step ctl ptl false in ((a, seen) :: r, ab)
+      | PErr => let '(r, ab) := assign_oracle_step ctl ptl true in ((a, seen) :: r, ab)
+      | PVal v =>
+          if rejects (as_mode a) v
+          then let '(r, ab) := assign_oracle_step ctl ptl true in ((a, seen) :: r, ab)
+          else let '(r, ab) := assign_oracle_step ctl ptl false in
+               ((a, if o_is_nil v then seen else seen ++ [v]) :: r, ab)
+      end
+  | _, _ => (cls, aborted)
+  end.
+
+Definition expected_target (a : assignment) (seen : list value) : value :=
+  match as_mode a with
+  | ASingle => hd VNil (rev seen)
+  | m => VArr (spec_collect m (as_n a) seen)
+  end.
+
+Fixpoint assign_oracle_ok (cls : list (assignment * list value)) (steps : list astep) : bool :=
+  match steps with
+  | [] => true
+  | stp :: tl =>
+      let '(cls', ab) := assign_oracle_step cls (st_produced stp) false in
+      Z.eqb (st_status stp) (if ab then 1 else 0)
+      && forallb (fun '(a, seen) =>
+                    value_close (expected_target a seen) (lookup_val (""%string, as_target a) (st_vals stp))) cls'
+      && assign_oracle_ok cls' tl
+  end.
+
+Definition assign_oracle_bad (k : assign_case) : bool :=
+  if as_flat k
+  then negb (assign_oracle_ok (map (fun a => (a, [])) (as_clauses k)) (as_steps k))
+  else existsb (fun stp => Z.eqb (st_status stp) 2) (as_steps k).
+
 (** * 2. Chains of collects / computes through the real audition *)
 
 (** One variable whose expression mentions signals only: the harness's own
